@@ -199,9 +199,9 @@ def rows(p, ctx):
     n = p["n"]
     seq = [p["s%d" % i] for i in range(n)]
     o = _mk(kind, seq, ctx.symbolic)
-    init = datetime.datetime(2024, 2, 28, 23, 58, 0)
-    u = p["u"]  # concrete per cube (minutes)
-    unit = datetime.timedelta(minutes=u)
+    init = datetime.datetime(2024, 2, 28, 23, 58, 0, p.get("us", 0))
+    u = p["u"]  # concrete per cube (minutes; seconds when "unit_s" is set)
+    unit = datetime.timedelta(seconds=u) if p.get("unit_s") else datetime.timedelta(minutes=u)
     m = p["q"] / 2
     if kind == "worker":
         owner = BaseTeam("tm", ID="tm", worker_list=[o])
@@ -209,6 +209,13 @@ def rows(p, ctx):
     elif kind == "facility":
         owner = BaseWorkplace("wp", ID="wp", facility_list=[o])
         ok, df = ctx.call(owner.create_data_for_gantt_plotly, init, unit, finish_margin=m, view_ready=True, view_absence=True)
+    elif p.get("via_container"):
+        # the workflow / product level builders must give the rows of their members
+        from pDESy.model.base_workflow import BaseWorkflow
+        from pDESy.model.base_product import BaseProduct
+
+        owner = BaseWorkflow([o]) if kind == "task" else BaseProduct([o])
+        ok, df = ctx.call(owner.create_data_for_gantt_plotly, init, unit, finish_margin=m, view_ready=True)
     else:
         ok, df = ctx.call(o.create_data_for_gantt_plotly, init, unit, finish_margin=m, view_ready=True)
     if not ok:
@@ -227,8 +234,9 @@ def rows(p, ctx):
             # independent integer arithmetic in half-minutes
             s_half = 2 * a * u
             f_half = (2 * a + 2 * b + qi) * u
-            es = (init + datetime.timedelta(seconds=30 * s_half)).strftime("%Y-%m-%d %H:%M:%S")
-            ef = (init + datetime.timedelta(seconds=30 * f_half)).strftime("%Y-%m-%d %H:%M:%S")
+            half_unit_us = 500000 if p.get("unit_s") else 30000000
+            es = (init + datetime.timedelta(microseconds=half_unit_us * s_half)).strftime("%Y-%m-%d %H:%M:%S")
+            ef = (init + datetime.timedelta(microseconds=half_unit_us * f_half)).strftime("%Y-%m-%d %H:%M:%S")
             if row["State"] != state or row["Start"] != es or row["Finish"] != ef:
                 ctx.fail("rows:%s:wrong-row" % kind)
             got.append((state, es, ef))
@@ -317,6 +325,12 @@ def obligations(tier, seed):
                 "params": [["s%d" % i, lo, hi] for i in range(n)],
                 "timeout": 150 if not thorough else 600,
             })
+    for kind in ("task", "component"):
+        for (u, q, us) in ((1, 1, 500000), (3, 1, 700000), (1, 3, 999999)):
+            lo, hi = KINDS[kind]
+            obs.append({"name": "rows-container/%s/unit=%ds/q=%d/us=%d" % (kind, u, q, us), "harness": "rows",
+                        "cube": {"kind": kind, "n": 3, "u": u, "q": q, "us": us, "unit_s": True, "via_container": True},
+                        "params": [["s%d" % i, lo, hi] for i in range(3)], "timeout": 150 if not thorough else 600})
     for use_arg in (0, 1):
         for setinit in (0, 1):
             obs.append({
